@@ -92,13 +92,17 @@ def main():
             inst[n].register_method("einsum", orig[n])
         plugins.PREVIOUS_EINSUM = None
         plugins.OPT_EINSUM_PATH_CACHE.clear()
+        tl.backend.use_dynamic_dispatch()
 
     x = np.arange(3.0)
 
     def probe():
         ran.tag = "nothing"
-        tl.einsum("i->i", x)
-        return [tl.get_backend(), ran.tag]
+        tl.einsum("i->i", x)                  # the import-time wrapper re-exported at top level
+        top = ran.tag
+        ran.tag = "nothing"
+        tl.backend.einsum("i->i", x)          # the manager's own attribute (frozen by use_static_dispatch)
+        return [tl.get_backend(), top, ran.tag]
 
     with open(jobfile) as fh:
         job = json.load(fh)
@@ -119,13 +123,13 @@ def main():
             return workers[t].call(f)
 
         def observe():
-            o = {"ein": {n: tag(getattr(inst[n], "einsum")) for n in NAMES}, "prev": tag(plugins.PREVIOUS_EINSUM), "disp": {}, "cur": {}}
+            o = {"ein": {n: tag(getattr(inst[n], "einsum")) for n in NAMES}, "prev": tag(plugins.PREVIOUS_EINSUM), "disp": {}, "cur": {}, "attr": {}}
             for u in names:
                 st, r = on(u, probe)
                 if st == "ok":
-                    o["cur"][u], o["disp"][u] = r
+                    o["cur"][u], o["disp"][u], o["attr"][u] = r
                 else:
-                    o["cur"][u], o["disp"][u] = "raised", r
+                    o["cur"][u], o["disp"][u], o["attr"][u] = "raised", r, r
             return o
         out.write(json.dumps({"id": tid + "/0", "tr": tid, "ev": "Reset", "t": "t0", "name": "none", "loc": False, "out": "ok", "exc": "",
                               "obs": observe()}) + "\n")
@@ -137,6 +141,10 @@ def main():
                 f = lambda: plugins.use_opt_einsum()
             elif ev == "Default":
                 f = lambda: plugins.use_default_einsum()
+            elif ev == "Static":
+                f = lambda: tl.backend.use_static_dispatch()
+            elif ev == "Dynamic":
+                f = lambda: tl.backend.use_dynamic_dispatch()
             else:
                 f = lambda: None
             st, r = on(t, f)
